@@ -329,6 +329,11 @@ def st(ctx):
     for b in crate.fns():
         if not (b.file or "").startswith("src/"):
             continue
+        # the proof checker (src/explain) relates invocations whose class ids are equal by the proof's own shape (the middle
+        # term of a transitivity step ...) — those equalities are not visible as `a.id == b.id` tests, and nothing there
+        # can change what eq() answers: outside the scope of this rule
+        if (b.file or "").startswith("src/explain/"):
+            continue
         errs, (sites, d) = spaces.check_function(crate, b, ins)
         tot += sites
         dec += d
